@@ -147,4 +147,103 @@ theorem fill3_spec (ni nj nk : Nat) (hi : 1 ≤ ni) (hj : 1 ≤ nj) (hk : 1 ≤ 
     exact ⟨⟨fun _ => s, fun _ => rfl⟩, ⟨fun x => (by cases x), fun r => absurd r nr⟩,
       ⟨fun x => (by cases x), fun x => absurd s x.1⟩, Or.inl rfl⟩
 
+/-- non-vacuity of `fill3_spec`: on the 3×3×3 grid whose 26 outer cells are surface cells the centre cell is not
+`Reach3`-able (it ends up `inside`) -/
+example : ¬ Reach3 3 3 3 (fun q => getC3 3 3 ((Array.replicate 27 VV.surf).setIfInBounds (idx3 3 3 1 1 1) .undef) q = .surf)
+    (1, 1, 1) := by
+  intro h
+  generalize hp : ((1, 1, 1) : Nat × Nat × Nat) = p at h
+  induction h with
+  | border hb hbd _ =>
+    subst hp; simp [OnBorder3] at hbd
+  | step hr hadj hq hs ih =>
+    rename_i a b
+    subst hp
+    -- the predecessor `a` is a neighbour of the centre, hence a surface cell: it cannot be reached
+    obtain ⟨a1, a2, a3⟩ := a
+    have hsurf : getC3 3 3 ((Array.replicate 27 VV.surf).setIfInBounds (idx3 3 3 1 1 1) .undef) (a1, a2, a3) = .surf := by
+      simp only [Adj3] at hadj
+      rcases hadj with ⟨h1, h2, (h3 | h3)⟩ | ⟨h1, h2, (h3 | h3)⟩ | ⟨h1, h2, (h3 | h3)⟩
+      · have e1 : a1 = 1 := by omega
+        have e2 : a2 = 1 := by omega
+        have e3 : a3 = 0 := by omega
+        subst e1 e2 e3; rfl
+      · have e1 : a1 = 1 := by omega
+        have e2 : a2 = 1 := by omega
+        have e3 : a3 = 2 := by omega
+        subst e1 e2 e3; rfl
+      · have e1 : a1 = 1 := by omega
+        have e2 : a2 = 0 := by omega
+        have e3 : a3 = 1 := by omega
+        subst e1 e2 e3; rfl
+      · have e1 : a1 = 1 := by omega
+        have e2 : a2 = 2 := by omega
+        have e3 : a3 = 1 := by omega
+        subst e1 e2 e3; rfl
+      · have e1 : a1 = 0 := by omega
+        have e2 : a2 = 1 := by omega
+        have e3 : a3 = 1 := by omega
+        subst e1 e2 e3; rfl
+      · have e1 : a1 = 2 := by omega
+        have e2 : a2 = 1 := by omega
+        have e3 : a3 = 1 := by omega
+        subst e1 e2 e3; rfl
+    cases hr with
+    | border _ _ x => exact x hsurf
+    | step _ _ _ x => exact x hsurf
+
+set_option maxRecDepth 1000000 in
+/-- the model evaluated on that closed shell: the centre cell is filled (`inside`), the fuel suffices -/
+example :
+    let r := fill3 true false 3 3 3 ((Array.replicate 27 VV.surf).setIfInBounds (idx3 3 3 1 1 1) .undef)
+    r.2 = true ∧ getC3 3 3 r.1 (1, 1, 1) = .inside ∧ getC3 3 3 r.1 (2, 1, 1) = .surf := by
+  decide +kernel
+
+set_option maxRecDepth 1000000 in
+/-- the model evaluated on the shell with the centre of the face `i = 2` open (the face seeded by the LAST of the six
+`mark_outside_surface` calls): the walk from the open face cell reaches the centre -/
+example :
+    let r := fill3 true false 3 3 3
+      (((Array.replicate 27 VV.surf).setIfInBounds (idx3 3 3 1 1 1) .undef).setIfInBounds (idx3 3 3 2 1 1) .undef)
+    r.2 = true ∧ getC3 3 3 r.1 (1, 1, 1) = .outside ∧ getC3 3 3 r.1 (2, 1, 1) = .outside ∧
+      getC3 3 3 r.1 (0, 1, 1) = .surf := by
+  decide +kernel
+
+/-- **fill3_surface_only** (`FillMode::SurfaceOnly`, `dim3`): no loop runs (fuel flag `true`), the size is kept, and every
+cell of the grid is `PrimitiveOnSurface` iff it was, every other cell becomes `PrimitiveOutsideSurface`. -/
+theorem fill3_surface_only (detectCavities : Bool) (ni nj nk : Nat) (g : Array VV) (hs : g.size = ni * nj * nk) :
+    (fill3 false detectCavities ni nj nk g).2 = true ∧ (fill3 false detectCavities ni nj nk g).1.size = ni * nj * nk ∧
+    ∀ p, InB3 ni nj nk p →
+      (getC3 ni nj (fill3 false detectCavities ni nj nk g).1 p = .surf ↔ getC3 ni nj g p = .surf) ∧
+      (getC3 ni nj g p ≠ .surf → getC3 ni nj (fill3 false detectCavities ni nj nk g).1 p = .outside) := by
+  have e : fill3 false detectCavities ni nj nk g = (g.map fun v => if v ≠ .surf then .outside else v, true) := by
+    unfold fill3; simp
+  rw [e]
+  refine ⟨rfl, by simp [hs], fun p hp => ?_⟩
+  simp only []
+  rw [getC3_map ni nj nk g _ hs p hp]
+  by_cases h : getC3 ni nj g p = .surf
+  · simp [h]
+  · simp [h]
+
+/-- **fill3_cav_surf_iff** (`FillMode::FloodFill { detect_cavities: true }`, `dim3`): the fill never changes which cells
+are surface cells — a cell is `PrimitiveOnSurface` at the end iff it held one of the four surface values
+(`PrimitiveOnSurface`, `…ToWalk1`, `…ToWalk2`, `…NoWalk`) before; in particular, on a grid that comes out of the marking
+phase (every cell `PrimitiveUndefined` or `PrimitiveOnSurface`), iff it was `PrimitiveOnSurface`. -/
+theorem fill3_cav_surf_iff (ni nj nk : Nat) (g : Array VV) (p : Nat × Nat × Nat) :
+    (getC3 ni nj (fill3 true true ni nj nk g).1 p = .surf ↔ isSC (getC3 ni nj g p) = true) ∧
+    ((getC3 ni nj g p = .undef ∨ getC3 ni nj g p = .surf) →
+      (getC3 ni nj (fill3 true true ni nj nk g).1 p = .surf ↔ getC3 ni nj g p = .surf)) := by
+  have h := fill3_cav_surf_getD ni nj nk g (idx3 ni nj p.1 p.2.1 p.2.2)
+  refine ⟨h, fun hv => ?_⟩
+  unfold getC3 at hv ⊢
+  rw [h]
+  rcases hv with v | v <;> rw [v] <;> simp [isSC]
+
+/-- **fill3_fuel_all**: every loop of the 3-D fill pass — the `propagate_values` sweeps and, with `detect_cavities`, the
+inside/outside alternation (each completed round turns at least two cells into a final value) — stays within the fuel the
+model gives it (number of cells + 1), in every `FillMode`, for every grid of the right size. -/
+theorem fill3_fuel_all (flood detectCavities : Bool) (ni nj nk : Nat) (g : Array VV) (hs : g.size = ni * nj * nk) :
+    (fill3 flood detectCavities ni nj nk g).2 = true := fill3_fuel_all' flood detectCavities ni nj nk g hs
+
 end C18
